@@ -14,6 +14,15 @@ End SepMap.
 
 Definition is_none {A} (o : option A) : bool := match o with None => true | Some _ => false end.
 
+(* ast.isDecimalIntegerLiteral: an *IntegerLiteral whose token literal consists of the
+   bytes '0'..'9' only (a '.' written directly after it would be read as part of the
+   numeral; MemberExpression.WriteTo separates the two by a blank). *)
+Definition is_decimal_int (e : expr) : bool :=
+  match e with
+  | EInt t => forallb (fun c => (48 <=? c)%N && (c <=? 57)%N) (t_lit t)
+  | _ => false
+  end.
+
 Fixpoint assocZ (l : list (Z * Z)) (k d : Z) : Z :=
   match l with
   | [] => d
